@@ -120,7 +120,7 @@ def _check_require_part(setting_name, setting_value):
     if invalid_values:
         raise SettingValidationError(
             '"{}" setting contains invalid values: {}'.format(
-                setting_name, ", ".join(invalid_values)
+                setting_name, ", ".join(sorted(invalid_values))
             )
         )
     _check_repeated_values(setting_name, setting_value)
@@ -140,7 +140,7 @@ def _check_parsers(setting_name, setting_value):
     if unknown_parsers:
         raise SettingValidationError(
             'Found unknown parsers in the "{}" setting: {}'.format(
-                setting_name, ", ".join(unknown_parsers)
+                setting_name, ", ".join(sorted(unknown_parsers))
             )
         )
     _check_repeated_values(setting_name, setting_value)
@@ -151,7 +151,7 @@ def _check_default_languages(setting_name, setting_value):
     if unsupported_languages:
         raise SettingValidationError(
             "Found invalid languages in the '{}' setting: {}".format(
-                setting_name, ", ".join(map(repr, unsupported_languages))
+                setting_name, ", ".join(map(repr, sorted(unsupported_languages)))
             )
         )
     _check_repeated_values(setting_name, setting_value)
